@@ -425,6 +425,152 @@ def r2_kernel_index_logic(run, tree):
                                            " when numba runs %d threads (totals depend on the thread count)" % nthreads if nthreads > 1 else ""))
 
 
+# ------------------------------------------------------------------------------------------ indices are range-checked AS INTEGERS
+_INT_CONV = {"int", "floor", "trunc", "rint", "int64", "int32", "intp", "floor_divide", "astype"}
+_CLAMP = {"min", "max", "minimum", "maximum", "clip"}
+
+
+def _call_name(n):
+    f = n.func
+    return f.attr if isinstance(f, ast.Attribute) else f.id if isinstance(f, ast.Name) else ""
+
+
+def _is_int_conv(e):
+    """does the expression produce its value through a float -> integer conversion (int(), np.floor, .astype(int), //)?"""
+    for n in ast.walk(e):
+        if isinstance(n, ast.Call) and _call_name(n) in _INT_CONV:
+            return True
+        if isinstance(n, ast.BinOp) and isinstance(n.op, ast.FloorDiv):
+            return True
+    return False
+
+
+def _returns_int(tree, fi, e, depth=0):
+    """e is a call of a package function whose returned value comes from a float->integer conversion (a helper such as _bin_index)"""
+    if not isinstance(e, ast.Call) or depth > 3:
+        return False
+    try:
+        g = tree.resolve_call(fi, e)
+    except Exception:
+        return False
+    gnode = g.node if isinstance(g, FuncInfo) else None
+    if gnode is None and isinstance(e.func, ast.Name):
+        # a function defined inside the kernel (def helper(...) / helper = lambda ...)
+        for n in ast.walk(fi.node):
+            if isinstance(n, ast.FunctionDef) and n.name == e.func.id and n is not fi.node:
+                gnode = n
+            elif isinstance(n, ast.Assign) and isinstance(n.value, ast.Lambda) and any(isinstance(t, ast.Name) and t.id == e.func.id for t in n.targets):
+                return _is_int_conv(n.value.body)
+    if gnode is None:
+        return False
+    if not isinstance(g, FuncInfo):
+        g = fi
+    local = {}
+    for n in ast.walk(gnode):
+        if isinstance(n, ast.Assign):
+            for t in n.targets:
+                if isinstance(t, ast.Name):
+                    local.setdefault(t.id, []).append(n.value)
+    def conv(x, d=0):
+        if _is_int_conv(x) or _returns_int(tree, g, x, depth + 1):
+            return True
+        return d < 4 and any(conv(v, d + 1) for m in ast.walk(x) if isinstance(m, ast.Name) for v in local.get(m.id, []))
+    return any(isinstance(n, ast.Return) and n.value is not None and conv(n.value) for n in ast.walk(gnode))
+
+
+def r_index_checked_as_integer(run, tree):
+    """The kernel is compiled without bounds checking.  A bin index obtained from floating-point arithmetic is only known to be in range
+    when the INTEGER is compared against the bounds (or clamped): a test on the coordinates (x < xmax) does not bound
+    int((x - xmin) / dx) - the division can round up to nx for a point just below xmax - and the exact-rational fold of R2 cannot see it.
+    Rule: every name used as an index of a stored accumulator element that is derived from a float->integer conversion is - itself, or a
+    name on its derivation chain after the conversion, or a name derived from it - the operand of a comparison or of a clamp (min/max/clip)
+    somewhere in the kernel.  (Which comparison, and against what, is the business of the fold R2.)"""
+    run.rule("C05.R9", "bin indices computed from floating-point coordinates are range-checked (or clamped) as integers before an accumulator is updated",
+             "def-use sweep over the kernel and the functions it calls", "numba: no bounds checks, float rounding", floor=1)
+    todo, seen = [tree.func(KERNEL)], set()
+    while todo:
+        fi = todo.pop()
+        if fi is None or fi.qual in seen:
+            continue
+        seen.add(fi.qual)
+        run.analysed(fi)
+        for n in ast.walk(fi.node):
+            if isinstance(n, ast.Call):
+                try:
+                    g = tree.resolve_call(fi, n)
+                except Exception:
+                    g = None
+                if g is not None and getattr(g, "qual", None) and g.qual.startswith("plot/"):
+                    todo.append(g)
+        defs = {}            # name -> [value expressions]
+        for n in ast.walk(fi.node):
+            if isinstance(n, ast.Assign):
+                for t in n.targets:
+                    if isinstance(t, ast.Name):
+                        defs.setdefault(t.id, []).append(n.value)
+                    elif isinstance(t, (ast.Tuple, ast.List)) and isinstance(n.value, (ast.Tuple, ast.List)) and len(t.elts) == len(n.value.elts):
+                        for a_, b_ in zip(t.elts, n.value.elts):
+                            if isinstance(a_, ast.Name):
+                                defs.setdefault(a_.id, []).append(b_)
+            elif isinstance(n, ast.AugAssign) and isinstance(n.target, ast.Name):
+                defs.setdefault(n.target.id, []).append(n.value)
+            elif isinstance(n, ast.NamedExpr):
+                defs.setdefault(n.target.id, []).append(n.value)
+        names_in = lambda e: {m.id for m in ast.walk(e) if isinstance(m, ast.Name)}
+        int_typed = set()
+        changed = True
+        while changed:                 # names whose value comes from a conversion, or from integer-typed names only through arithmetic
+            changed = False
+            for v, exprs in defs.items():
+                if v in int_typed:
+                    continue
+                if any(_is_int_conv(e) or (names_in(e) & int_typed and not isinstance(e, ast.Call)) or _returns_int(tree, fi, e) for e in exprs):
+                    int_typed.add(v)
+                    changed = True
+        checked = set()
+        for n in ast.walk(fi.node):
+            if isinstance(n, ast.Compare):
+                checked |= names_in(n)
+            elif isinstance(n, ast.Call) and _call_name(n) in _CLAMP:
+                checked |= names_in(n)
+        for v, exprs in defs.items():          # v = min(max(i, 0), n - 1): v is clamped by construction
+            if any(isinstance(e, ast.Call) and _call_name(e) in _CLAMP for e in exprs):
+                checked.add(v)
+
+        def related(v, depth=0, seen_=None):
+            """v, the integer-typed names it is computed from, and the names computed from it"""
+            seen_ = seen_ if seen_ is not None else set()
+            if v in seen_:
+                return seen_
+            seen_.add(v)
+            for e in defs.get(v, []):
+                for u in names_in(e) & int_typed:
+                    related(u, depth + 1, seen_)
+            for w, exprs in defs.items():
+                if any(v in names_in(e) for e in exprs) and w in int_typed:
+                    related(w, depth + 1, seen_)
+            return seen_
+        for st in ast.walk(fi.node):
+            tgt = st.target if isinstance(st, ast.AugAssign) else st.targets[0] if isinstance(st, ast.Assign) and len(st.targets) == 1 else None
+            if not isinstance(tgt, ast.Subscript):
+                continue
+            sl = tgt.slice
+            elts = sl.elts if isinstance(sl, ast.Tuple) else [sl]
+            for e in elts:
+                if isinstance(e, ast.Slice):
+                    continue
+                idx_names = names_in(e) & int_typed
+                inline = _is_int_conv(e) and not idx_names
+                bad = [v for v in sorted(idx_names) if not (related(v) & checked)]
+                construct = "%s::index-checked-as-integer::%s[%s]" % (fi.qual, norm(tgt.value), norm(e))
+                if not idx_names and not inline:
+                    continue
+                run.ob(construct, not bad and not inline, fi.where(st),
+                       ("`%s`: index `%s` comes from a float->integer conversion and no integer on its chain is ever compared or clamped" % (norm(st), (bad or [norm(e)])[0])) if (bad or inline)
+                       else "index %s: compared or clamped as an integer" % sorted(idx_names),
+                       "a point one rounding step below xmax (or ymax): (x - xmin) / dx rounds up to nx, the unchecked index writes into the next row (or past the array)")
+
+
 # ------------------------------------------------------------------------------------------ limits
 def r5_limits(run, tree):
     run.rule("C05.R5", "limits: Quantity converted to the axis unit; explicit limits log10'd on log axes and otherwise untouched; a missing limit is "
@@ -460,4 +606,4 @@ def r_layer_views(run, tree):
     lf.check_layer_copies(run, tree)
 
 
-RULES = [r_layer_views, r_wrappers_pure, r1_no_shared_rmw, r2_kernel_index_logic, r5_limits, r6_r7_layers, r_norm_corners]
+RULES = [r_layer_views, r_wrappers_pure, r1_no_shared_rmw, r2_kernel_index_logic, r_index_checked_as_integer, r5_limits, r6_r7_layers, r_norm_corners]
